@@ -228,3 +228,26 @@ impl SessionStorageBackend for InMemorySessionStore {
         Ok(num_deleted)
     }
 }
+
+#[cfg(pavex_verif)]
+impl InMemorySessionStore {
+    /// Verification hook: `(id, deadline - now)` in signed nanoseconds for every record that is
+    /// physically in the map, stale or not. Read-only.
+    pub async fn verif_dump(&self) -> Vec<(SessionId, i128)> {
+        let guard = self.0.lock().await;
+        let now = Timestamp::now().as_nanosecond();
+        guard
+            .iter()
+            .map(|(id, record)| (*id, record.deadline.as_nanosecond() - now))
+            .collect()
+    }
+
+    /// Verification hook: moves every deadline `by` into the past, i.e. lets `by` of time pass
+    /// for all the records in the map at once.
+    pub async fn verif_age(&self, by: Duration) {
+        let mut guard = self.0.lock().await;
+        for record in guard.values_mut() {
+            record.deadline = record.deadline - by;
+        }
+    }
+}
